@@ -35,6 +35,7 @@ def gen_cases(tier, seed):
         cases += rng.sample(cs, min(per, len(cs)))
     # boundary families that sampling must not drop
     cases += c08.count_cases(rng)
+    cases += c08.ie_cases(rng)
     return cases, {"per_source_property": per, "total": len(cases)}
 
 
